@@ -10,6 +10,7 @@ import (
 	"net/url"
 	"runtime"
 	"sync"
+	"sync/atomic"
 	"time"
 
 	"github.com/renbou/grpcbridge/bridgedesc"
@@ -69,6 +70,99 @@ func stressPart(w *vc.Writer, r *vc.Rand, service bool) {
 			}
 		}()
 	}
+	// a steady target: re-described all the time, always listing pkg.steady with GET /steady/fixed (plus varying extras).
+	// Readers look the stable route up concurrently: it must never be momentarily unroutable, and what a lookup returns
+	// must come from ONE description (the returned service is an element of the returned target description, the method
+	// of that service, the binding of that method)
+	var flicker, mixture, lookups atomic.Int64
+	steadyDesc := func(gen int) *bridgedesc.Target {
+		d := stressDesc("steady", gen)
+		for k := 0; k < gen%3; k++ { // varying extras around the stable service, before and after it
+			x := bridgedesc.Service{Name: protoreflect.FullName(fmt.Sprintf("pkg.extra%d", (gen+k)%5)), Methods: []bridgedesc.Method{{RPCName: fmt.Sprintf("/pkg.extra%d/M", (gen+k)%5)}}}
+			if k%2 == 0 {
+				d.Services = append([]bridgedesc.Service{x}, d.Services...)
+			} else {
+				d.Services = append(d.Services, x)
+			}
+		}
+		return d
+	}
+	var steadyUpd func(*bridgedesc.Target)
+	if service {
+		wt, _ := sr.Watch("steady")
+		steadyUpd = wt.UpdateDesc
+	} else {
+		wt, _ := pr.Watch("steady")
+		steadyUpd = wt.UpdateDesc
+	}
+	steadyUpd(steadyDesc(0))
+	wg.Add(1)
+	go func() {
+		defer wg.Done()
+		for gen := 1; ; gen++ {
+			select {
+			case <-stop:
+				return
+			default:
+			}
+			steadyUpd(steadyDesc(gen))
+		}
+	}()
+	oneDesc := func(t *bridgedesc.Target, sv *bridgedesc.Service, m *bridgedesc.Method, b *bridgedesc.Binding) bool {
+		for i := range t.Services {
+			if &t.Services[i] == sv {
+				if m == nil { // the service router hands out a synthetic method: only target and service come from the description
+					return true
+				}
+				for j := range sv.Methods {
+					if &sv.Methods[j] == m {
+						if b == nil {
+							return true
+						}
+						for k := range m.Bindings {
+							if &m.Bindings[k] == b {
+								return true
+							}
+						}
+					}
+				}
+			}
+		}
+		return false
+	}
+	for i := 0; i < 3; i++ {
+		wg.Add(1)
+		go func() {
+			defer wg.Done()
+			httpReq := &http.Request{Method: "GET", URL: &url.URL{Path: "/steady/fixed", RawPath: "/steady/fixed"}}
+			if service {
+				httpReq = &http.Request{Method: "POST", URL: &url.URL{Path: "/pkg.steady/M", RawPath: "/pkg.steady/M"}}
+			}
+			for {
+				select {
+				case <-stop:
+					return
+				default:
+				}
+				lookups.Add(1)
+				if service {
+					_, rt, err := sr.RouteHTTP(httpReq)
+					if err != nil {
+						flicker.Add(1)
+					} else if rt.Target.Name != "steady" || rt.Service.Name != "pkg.steady" || !oneDesc(rt.Target, rt.Service, nil, nil) {
+						mixture.Add(1)
+					}
+				} else {
+					_, rt, err := pr.RouteHTTP(httpReq)
+					if err != nil {
+						flicker.Add(1)
+					} else if rt.Target.Name != "steady" || !oneDesc(rt.Target, rt.Service, rt.Method, rt.Binding) {
+						mixture.Add(1)
+					}
+				}
+			}
+		}()
+	}
 	rounds, violations := 0, 0
 	deadline := time.Now().Add(dur)
 	for time.Now().Before(deadline) {
@@ -110,6 +204,6 @@ func stressPart(w *vc.Writer, r *vc.Rand, service bool) {
 	}
 	close(stop)
 	wg.Wait()
-	fmt.Printf("STAT stress \"rounds=%d violations=%d\"\n", rounds, violations)
-	w.Case(vc.L{service, rounds}, vc.L{violations}, rounds > 100)
+	fmt.Printf("STAT stress \"rounds=%d violations=%d lookups=%d flicker=%d mixture=%d\"\n", rounds, violations, lookups.Load(), flicker.Load(), mixture.Load())
+	w.Case(vc.L{service, rounds}, vc.L{violations, int(flicker.Load()), int(mixture.Load())}, rounds > 100)
 }
